@@ -62,7 +62,10 @@ def rule_converters(ctx):
     ms_ok = ms is not None and ms.op == "bin" and ms.a[0] == "-" and tm.is_const(ms.a[2], 1) and ms.a[1].op == "call" and call_name(ms.a[1]) == "builtins.len" and ms.a[1].a[1][0].op == "param" and ms.a[1].a[1][0].a[0] == "converters"
     yield ob(R, f, "io.load_delimited:split", base_ok and arg_ok and ms_ok, "row = re.compile(delimiter).split(line.strip(), len(converters) - 1): the last column keeps its inner whitespace", node=x.node)
     en = [y for y in s.calls() if y.callee == "builtins.enumerate"]
-    good = len(en) == 1 and len(en[0].args) == 2 and tm.is_const(en[0].args[1], 1)
+    start = None
+    if len(en) == 1:
+        start = en[0].args[1] if len(en[0].args) == 2 else dict(en[0].kw).get("start")
+    good = len(en) == 1 and start is not None and tm.is_const(start, 1)
     yield ob(R, f, "io.load_delimited:row-numbers", good, "rows are numbered by enumerate(file, 1)")
     src = en[0].args[0] if en else None
     direct = src is not None and (src.op == "with" or (src.op == "call" and call_name(src) == ".readlines" and src.a[1][0].op == "with"))
